@@ -154,10 +154,11 @@ def strip_for_tlc(trace: dict) -> dict:
 
 # --------------------------------------------------------------------------
 # sessions: several runs on the same pipeline / detector objects, reconfigured in between
+_SESS = 0
 
 def record_session(cfg: dict, ops: list, construction: str = "python", debug: bool = False,
                    hier: bool = False, kind: str = "ccd", extra: dict | None = None,
-                   rows: int = 2, cols: int = 3) -> dict:
+                   rows: int = 2, cols: int = 3, real: int | None = None) -> dict:
     """`ops`: ["run"] | ["toggle", g, m, how] | ["setargs", g, m, text] | ["resched", times, start, nd]
     | ["peek", what].  g is the 1-based group index, m the 1-based position in the group.
     Returns {cfg (initial), events, meta}; events of all runs with `restart` between them and
@@ -166,16 +167,31 @@ def record_session(cfg: dict, ops: list, construction: str = "python", debug: bo
     from pyxel.exposure import Exposure
 
     meta = {"construction": construction, "debug": debug, "hier": hier, "detector": kind,
-            "session": ops}
+            "session": ops, "real": real}
     cur = copy.deepcopy(cfg)
+    sess_file = None
     try:
         if construction == "yaml":
             conf = pyxel.loads(px.yaml_document(cur, extra=extra, rows=rows, cols=cols, kind=kind))
             mode, det, pipe = conf.running_mode, conf.detector, conf.pipeline
         else:
             det = px.make_detector(kind, rows, cols)
-            pipe = px.build_pipeline(cur, extra, shape=(rows, cols))
+            pipe = px.build_pipeline(cur, extra, real=real, shape=(rows, cols))
             mode = Exposure(readout=px.build_readout(cur, "list"))
+            if real is not None:
+                # the load-detector models of a session read ONE file, which the session may rewrite
+                import os
+                import shutil
+                global _SESS
+                _SESS += 1
+                for gname in px.GROUPS:
+                    for model in (getattr(pipe, gname).models if getattr(pipe, gname, None) else ()):
+                        if "filename" in model.arguments and str(model.arguments["filename"]).endswith(".asdf"):
+                            if sess_file is None:
+                                sess_file = os.path.join(os.path.dirname(model.arguments["filename"]),
+                                                         f"session_{os.getpid()}_{_SESS}.asdf")
+                                shutil.copyfile(model.arguments["filename"], sess_file)
+                            model.arguments["filename"] = sess_file
         px.load_prior(det, cur["prior"], cur.get("imgdt", "uint16"))
     except Exception:
         return {"cfg": cfg, "events": [{"e": "harness-error", "why": traceback.format_exc()[-400:]}],
@@ -243,6 +259,18 @@ def record_session(cfg: dict, ops: list, construction: str = "python", debug: bo
                 cur["times"], cur["start"], cur["nd"] = list(times), start, nd
                 mode = Exposure(readout=px.build_readout(cur, "list"))
                 events.append({"e": "resched", "times": list(times), "start": start, "nd": nd})
+            elif what == "rewrite":
+                restart_if_needed()
+                if sess_file is None:
+                    continue
+                import os
+                import shutil
+                src = px.stored_detector_file(op[1], (rows, cols), kind)
+                tmp = sess_file + ".new"
+                shutil.copyfile(src, tmp)
+                os.replace(tmp, sess_file)                 # same name, new content
+                cur["stored"] = op[1]
+                events.append({"e": "rewrite", "stored": op[1]})
             elif what == "peek":
                 # operations that must not have any effect
                 if op[1] == "repr":
@@ -258,6 +286,12 @@ def record_session(cfg: dict, ops: list, construction: str = "python", debug: bo
         except Exception:
             events.append({"e": "harness-error", "why": traceback.format_exc()[-400:]})
             break
+    if sess_file:
+        import os
+        try:
+            os.unlink(sess_file)
+        except OSError:
+            pass
     out = {"cfg": cfg, "events": events, "meta": meta}
     if debug:
         out["debug_runs"] = debug_runs
